@@ -719,6 +719,8 @@ func c04(r *h.Result, rng *h.Rng, tier string, replay string) error {
 		zones = append(zones, "Asia/Kolkata", "America/St_Johns", "Pacific/Chatham", "Asia/Kathmandu", "Europe/Berlin")
 	}
 	r.Rule = "labels: sets of ≤5 (thorough ≤12) labels with distinct sanitized names, 3/4 fixed points of the sanitisation (names [a-zA-Z_][a-zA-Z0-9_]*, values ≤13 runes, half of them from control/quote/DEL/non-BMP/line-separator runes), 1/4 needing sanitisation (arbitrary bytes, invalid UTF-8, values cut at byte 100 inside a rune), all permutations for ≤5 labels (thorough: ≤4; otherwise identity, reverse and 10 random orders), identity order through every protocol that can carry the set; non-trivial = ≥2 labels or needs sanitising; distinct by (protocol, labels as sent). " +
+		"pipeline: (1) 1 label whose value has a 2-, 3- or 4-byte rune (11 runes incl. U+07FF/U+0800/U+FFFF/U+10000/U+10FFFF) starting at every offset from 100−len−1 to 101 with 0/1/4 bytes behind it, plus values whose whole prefix is multi-byte, through all 9 forms; (2) 25 invalid sequences (lone continuation/lead bytes, cut runes, over-long forms, surrogates, beyond U+10FFFF, 0xF5–0xFF, runs) alone / inside text / on byte 100 / in the name; (3) generated lists of 1–4 labels (names: 40% needing the name rule incl. invalid bytes and >100 bytes; values: 30% rune-around-the-cut, 10% invalid, 10% invalid at the cut, 10% arbitrary bytes), 15% with a __ttl_days__ label, 10% with a TTL header; every case is non-trivial. " +
+		"utf8: all 256 one-byte strings, all 16384 two-byte strings with a lead byte ≥ 0xC0, 11 lead bytes × 10 × 10 boundary continuation bytes in 4 contexts, generated strings; non-trivial = not valid UTF-8 or longer than 100 bytes. " +
 		"json: documents written with random white space and escape styles, 40% mutated by one byte; non-trivial = contains an escape or is rejected. " +
 		"history: ≤30 ops over a pool of 4 series × 3 days × 3 sample types, pushes with scripted INSERT outcomes (25% series failure, 15% samples failure, 10% malformed trailing stream), 10% cache resets, retries of the previous request 20%; non-trivial = contains a failed or malformed push followed by a push of the same series. " +
 		"zones: UTC and local midnights ±1 ns of 6 dates (incl. DST changes and 1970-01-01) per zone plus random instants, 7 windows per instant with margins {0,1ns,1s,30min∓1s,1d}; non-trivial = instant within 1 s of a UTC or local midnight."
@@ -760,7 +762,11 @@ func c04(r *h.Result, rng *h.Rng, tier string, replay string) error {
 	lap("zones")
 	r.Notes = append(r.Notes,
 		"history stream: the real HTTP handler (controllerv1.PushStreamV2 → doParse → parser → numbercache.Cache) is driven; the insert services behind it are fakes returning the scripted final outcome of each INSERT (real services with fake ClickHouse clients are C01/C02's harness); a cache reset moves the handler to a node name never used before (numbercache.Cache.DB prefixes every key with the node name, so nothing set earlier is visible); one history waits for the real ticker of a 25 ms cache instead",
-		"the sanitisation (name regexp, value truncation, UTF-8 repair) is outside the Lean model: the harness applies a reference sanitisation to the generated labels before asking the model, and the oracle compares the decoded document with that reference",
+		"labels stream: the harness applies a reference sanitisation to the generated labels before asking the model for the fingerprint of the sanitized set (the statement's view); the pipeline stream hands the model the list the decoder collected and the model runs sanitizeLabels, the __ttl_days__ block, validUTF8Labels, fingerprintLabels, encodeLabels in the order regenerated from onEntries",
+		fmt.Sprintf("pipeline stream: requests with a string that is not valid UTF-8 — carried to onEntries: Loki JSON stream %d, Loki JSON labels %d, Loki protobuf (\\xNN in the label text) %d, Influx log %d / metric %d, Datadog logs %d / series %d; refused by the protobuf library before the decoder runs: remote write %d (carried %d), OTLP logs %d (carried %d)",
+			r.Distribution["pipeline:invalid-utf8-carried:loki-json-stream"], r.Distribution["pipeline:invalid-utf8-carried:loki-json-labels"], r.Distribution["pipeline:invalid-utf8-carried:loki-protobuf"],
+			r.Distribution["pipeline:invalid-utf8-carried:influx-log"], r.Distribution["pipeline:invalid-utf8-carried:influx-metric"], r.Distribution["pipeline:invalid-utf8-carried:datadog-logs"], r.Distribution["pipeline:invalid-utf8-carried:datadog-series"],
+			r.Distribution["pipeline:invalid-utf8-rejected:prom-remote-write"], r.Distribution["pipeline:invalid-utf8-carried:prom-remote-write"], r.Distribution["pipeline:invalid-utf8-rejected:otlp-logs"], r.Distribution["pipeline:invalid-utf8-carried:otlp-logs"]),
 		fmt.Sprintf("distinct label sets fingerprinted: %d, fingerprint collisions among them: %d (a test, not a theorem: see C04.no_injective_fp)", r.Distribution["labels:set-clean"]+r.Distribution["labels:set-needs-sanitising"], r.Distribution["labels:fingerprint-collisions"]))
 	return nil
 }
